@@ -20,6 +20,7 @@ def run(chk):
     chk.rule("R04.1", "annotation-context specials of the parser are escaped by every tag-emitting site of the writer")
     chk.rule("R04.2", "label<->symbol tables are inverse bijections and both writer copies agree")
     chk.rule("R04.3", "text characters are literal in parser and writer")
+    chk.rule("R04.4", "one tag marker per tag slot (absent slots keep an empty placeholder)")
     parser = C.find_parser(w, C.S + "::update_partial_annotation")
     chk.fn(parser, WP)
     pt, it, outs, H = fmt.parser_table(w, parser)
@@ -49,6 +50,18 @@ def run(chk):
                % ([chr(x) for x in missing], s.detail[:80]), site=C.site(s.body, s.bb), sample={"escaped": sorted(map(chr, s.escaped)), "kind": s.kind})
         if s.escaped:
             chk.ob("R04.1", "writer:tag[%d]:escape-char" % k, s.esc == esc, "tag site escapes with %s, parser's escape character is %s" % (sorted(map(chr, s.esc)), sorted(map(chr, esc))), site=C.site(s.body, s.bb))
+    sep_tag = {x for x, sig in specials.items() if "starts-tag" in sig}
+    # ---- tag slots: one marker per slot up to the last present tag, whether the slot is present or absent
+    marker = list(sep_tag)[0] if len(sep_tag) == 1 else None
+    slots = fmt.tag_slot_tables(w, WP, marker) if marker is not None else []
+    chk.floor("R04.4", "tag-marker loops", len(slots), 2)
+    for k, (f_, h_, ety, table) in enumerate(slots):
+        per_slot = "Option<&S::option::Option<" in ety or "Option<(usize, &S::option::Option<" in ety
+        okt = per_slot and table.get("Some") == {1} and table.get("None") == {1}
+        chk.ob("R04.4", "writer:tag-slot-loop[%d]:marker-per-slot" % k, okt,
+               "the tag loop of %s iterates over `%s` and pushes the tag marker %s times per (present, absent) slot; expected one marker for every slot (present or absent) up to the last present tag: "
+               "an absent tag before a present one must leave an empty placeholder, otherwise later tags shift into earlier categories" % (f_, ety, {k_: sorted(v_) for k_, v_ in table.items()}),
+               site=C.site(C.body(w, f_), h_), sample={"fn": f_, "element": ety, "table": {str(k_): sorted(v_) for k_, v_ in table.items()}})
     # ---- R04.3
     texts = [s for s in sites if s.role == "text"]
     chk.ob("R04.3", "writer:text-literal", len(texts) >= 2 and all(s.kind == "push" for s in texts), "text characters are not pushed literally by the writer: %s" % [(s.kind, s.detail[:40]) for s in texts])
